@@ -48,7 +48,13 @@ static void roundtrip_one(const Kind &k, int sz, IoGen &g) {
         VH_OP("import:%s:%s", k.name.c_str(), tr ? "file" : "stream");
         HP im; long pos = -1; bool good = true;
         errno = rng.below(3) == 0 ? 0 : (rng.coin() ? ERANGE : EINVAL);     // whatever an earlier, unrelated call left behind
-        if (tr == T_STREAM) { std::istringstream is(s1, std::ios::binary); im = k.imp_s(is, *o); good = (bool) is; is.clear(); pos = (long) is.tellg(); }
+        if (tr == T_STREAM) { std::istringstream is(s1, std::ios::binary);
+            // a third of the streams report errors by exception (the caller's choice): a valid import must not throw, and must
+            // leave the mask as it found it
+            bool exc = rng.below(3) == 0; if (exc) is.exceptions(std::ios::failbit | std::ios::badbit);
+            try { im = k.imp_s(is, *o); } catch (const std::ios_base::failure &e) { out.viol("io:" + k.name + ":valid-import-threw", J().s("kind", k.name).s("what", e.what())); continue; }
+            if (exc && is.exceptions() != (std::ios::failbit | std::ios::badbit)) out.viol("io:" + k.name + ":exception-mask-of-the-callers-stream-changed", J().s("kind", k.name).i("mask", (int) is.exceptions()));
+            is.exceptions(std::ios::goodbit); good = (bool) is; is.clear(); pos = (long) is.tellg(); }
         else { FILE *f = fmemopen((void *) s1.data(), s1.size(), "rb"); im = k.imp_f(f, *o); pos = ftell(f); fclose(f); }
         out.evaluations++;
         if (!im->obj) { out.viol("io:" + k.name + ":import-returned-null", J().s("kind", k.name).i("transport", tr)); continue; }
